@@ -190,6 +190,16 @@ impl Property for C01 {
                 }
             }
         }
+        // escape-like sequences with long numeric payloads inside string literals (`\u{…}`, `\x…`, `\123`: whatever an
+        // escape syntax accumulates must not overflow), for every ASCII character after the backslash
+        for x in 33u8..=126 {
+            for payload in [
+                "", "0", "41", "{}", "{", "{0}", "{41}", "{10FFFF}", "{110000}", "{D800}", "{FFFFFFFF}", "{100000000}", "{100000041}", "{FFFFFFFFFFFFFFFFF}",
+                "{99999999999999999999}", "100000000", "FFFFFFFFFFFFFFFFF", "99999999999999999999", "{-1}", "{1", "777777777777777777777777",
+            ] {
+                cases.push(c01_case(&format!("\"a\\{}{}b\"", x as char, payload), "escapes"));
+            }
+        }
         // operators on every pair of edge integers and on mixed pairs (overflow, MIN / -1, MIN % -1, shifts of the exponent…)
         let ints = int_pool();
         for op in ["+", "-", "*", "/", "%", "^", "<", "=="] {
